@@ -462,3 +462,5 @@ def run(ctx):
     ctx.borrow(c11.r4, {'C11.R4': 'C01.R14'},
                'source and destination of a received telegram are validated with the address class functions: a wider '
                'isValidAddress/isMaster reports telegrams with an invalid source or destination')
+    import rules.C09 as c09
+    c09.symbol_layout_rule(ctx, 'C01.R15')
